@@ -94,7 +94,7 @@ def exec_while(it, st, fr):
                                   f"(unrolled {sym_iters} symbolic iterations)")
 
 
-def _cut_loop(it, st, fr, spec, test, bind):
+def _cut_loop(it, st, fr, spec, test, bind, havoc_more=None):
     ctx = it.ctx
     key = f"{fr.module.name}:{fr.func.qualname}"
     stored = _stored_names(st.body) | (_stored_names([st.target]) if isinstance(st, ast.For) else set())
@@ -107,6 +107,8 @@ def _cut_loop(it, st, fr, spec, test, bind):
     ctx.obligate(f"{key}#loop@{st.lineno}:invariant-holds-on-entry", spec.invariant(it, fr),
                  func=key, line=st.lineno)
     spec.havoc(it, fr)
+    if havoc_more is not None:
+        havoc_more()
     ctx.assume(spec.invariant(it, fr))
     ctx.mutated = set()
     if test():
@@ -120,7 +122,6 @@ def _cut_loop(it, st, fr, spec, test, bind):
             if spec.after is not None:
                 spec.after(it, fr)
             return
-        extra = getattr(ctx, "mutated", set()) - {id(o) for o in getattr(spec, "mut_objs", lambda it, fr: [])(it, fr)} if hasattr(spec, "mut_objs") else set()
         ctx.obligate(f"{key}#loop@{st.lineno}:invariant-preserved", spec.invariant(it, fr),
                      func=key, line=st.lineno)
         raise PathEnd("loop cut")
@@ -135,18 +136,49 @@ def exec_for(it, st, fr):
     header = f"{ast.unparse(st.target)} in {ast.unparse(st.iter)}"
     spec = find_spec(it, st, fr, header)
     if spec is not None:
-        if not (isinstance(itv, Sym) and hasattr(itv, "arbitrary")):
+        # Loop over a symbolic collection, cut at the invariant.  The collection is iterated as
+        # the SET of its elements in an ARBITRARY order (ghost `__processed__` = elements done):
+        # sound for every order; a list with repeated elements is visited once per distinct
+        # element (stated assumption: loop bodies under such contracts are idempotent per element).
+        import z3
+        from .symcoll import SColl, SDict, STup, SSet
+        if isinstance(itv, STup):
+            coll, conv = itv.gen.coll, itv.gen.fn
+        elif isinstance(itv, SDict):
+            coll, conv = itv.keyset(), None
+        elif isinstance(itv, SColl):
+            coll, conv = itv, None
+        else:
             raise Unsupported("for-loop contract on a concrete iterable")
-        # one arbitrary iteration: element is an arbitrary member of the collection
-        holder = {}
+        el = coll.elem
+        fr.locals["__processed__"] = SSet(el, z3.K(el.sort, z3.BoolVal(False)))
+        fr.locals["__iterated__"] = coll
+
+        def havoc_more():
+            P = z3.Const(it.ctx.fresh_name("processed"), z3.ArraySort(el.sort, z3.BoolSort()))
+            fr.locals["__processed__"] = SSet(el, P)
+            q = z3.Const("pq!" + el.kind, el.sort)
+            it.ctx.assume(z3.ForAll([q], z3.Implies(z3.Select(P, q), z3.Select(coll.arr, q))))
+        state = {}
 
         def test():
-            ne = itv.nonempty(it)
-            return it.truth(ne)
+            P = fr.locals["__processed__"].arr
+            q = z3.Const("rq!" + el.kind, el.sort)
+            more = z3.Exists([q], z3.And(z3.Select(coll.arr, q), z3.Not(z3.Select(P, q))))
+            if it.ctx.branch(more):
+                k = el.fresh(it, "cur")
+                it.ctx.assume(z3.And(z3.Select(coll.arr, k), z3.Not(z3.Select(P, k))))
+                state["k"] = k
+                return True
+            return False
 
         def bind():
-            it.assign(st.target, itv.arbitrary(it), fr)
-        return _cut_loop(it, st, fr, spec, test, bind)
+            k = state["k"]
+            x = el.wrap(k)
+            it.assign(st.target, conv(x) if conv is not None else x, fr)
+            P = fr.locals["__processed__"].arr
+            fr.locals["__processed__"] = SSet(el, z3.Store(P, k, z3.BoolVal(True)))
+        return _cut_loop(it, st, fr, spec, test, bind, havoc_more)
     items = it.iterate(itv)
     for x in items:
         it.assign(st.target, x, fr)
